@@ -477,6 +477,9 @@ class String:
         if pushed is not None:
             # We were passed a TemplateDict, so we must be a sub-template
             md = mapping
+            if md.level > 200:
+                # refuse before anything is pushed on the caller's namespace
+                raise SystemError('infinite recursion in document template')
             push = md._push
             if globals:
                 push(self.globals)
